@@ -5,6 +5,7 @@ go 1.21
 require (
 	github.com/dgraph-io/badger v1.6.2
 	github.com/jirenius/go-res v0.0.0
+	github.com/nats-io/nats-server/v2 v2.1.8
 	github.com/nats-io/nats.go v1.10.0
 )
 
